@@ -209,7 +209,14 @@ func (s *SFTPStore) HasChunk(id ChunkID) (bool, error) {
 	defer func() { s.pool <- c }()
 	name := c.nameFromID(id)
 	_, err := c.client.Stat(name)
-	return err == nil, nil
+	if err != nil {
+		// Only report the chunk as not there if the server said so
+		if os.IsNotExist(err) {
+			return false, nil
+		}
+		return false, errors.Wrap(err, "sftp:stat "+name)
+	}
+	return true, nil
 }
 
 // Prune removes any chunks from the store that are not contained in a list
